@@ -18,7 +18,7 @@ PROP = "C11"
 LEVEL = "exploration"
 RULE = ("seeded (file content, variant, index source, read history) cases. Content: 0-12 lines from an alphabet with "
         "empty lines, ASCII, 2/3/4-byte UTF-8, BOM char, '\\r' inside / at the end of lines, lines of 8191/8192/8193/"
-        "70000 bytes, with and without final '\\n', the empty file (buffered variants). Variants: all 8 line/record "
+        "70000 bytes, with and without final '\\n', the empty file (buffered variants), and a 1.1 MB file of 70000 fixed-width lines (line starts on every power-of-two boundary). Variants: all 8 line/record "
         "file classes (mutable ones unmodified, record ones with a pass-through record). Index: built, explicit "
         "list (full / subset / permutation / with repeats), index file. History: len, f[i] for i in [-n-2,n+1], "
         "slices with all sign/step combinations, index iterables, full iteration, iterators advanced with next() "
@@ -59,6 +59,18 @@ def _raw_record_class():
 
 
 def gen_case(rng, tier, index):
+    if index % 600 == 7 or (tier == "thorough" and index % 150 == 7):
+        # a file larger than any I/O or index-building chunk (1.1 MB) of fixed-width 16-byte lines: a line start falls
+        # on every power-of-two boundary (4 KiB ... 1 MiB)
+        n = 70000 + rng.randrange(3)
+        content = "".join(f"{i:015d}\n" for i in range(n))
+        if rng.random() < 0.5:
+            content = content[:-1]
+        probes = sorted({0, 1, n - 1, n - 2, -1, 255, 256, 257, 511, 512, 4095, 4096, 4097, 65535, 65536, 65537, 65538,
+                         32767, 32768, 69999} | {rng.randrange(n) for _ in range(6)})
+        ops = [["len", 0, 0, 0]] + [["get_abs", i, 0, 0] for i in probes if -n <= i < n] + [["it_new", 0, 0, 0], ["it_next", 0, 0, 0]]
+        return {"content": content, "variant": VARIANTS[(index // 7) % len(VARIANTS)], "index": "built", "index_seed": 0,
+                "ops": ops, "big": True}
     n = rng.choice([0, 1, 1, 2, 3, 4, 5, 6, 8, 12])
     lines = [rng.choice(ALPHABET) for _ in range(n)]
     if index % 11 == 0 and n:
@@ -177,7 +189,7 @@ def run_case(case, res):
     if case["content"] == "" and "MemoryMapped" in case["variant"]:
         res.count("skipped_empty_mmap")
         return
-    with instr.budget(3_000_000):
+    with instr.budget(3_000_000 if not case.get("big") else 40_000_000):
         try:
             _run(case, res, path, idx_path)
         except instr.StepBudgetExceeded:
@@ -215,6 +227,8 @@ def _run(case, res, path, idx_path):
             res.count("op_" + op)
             if op == "len":
                 cmp("len(f)", outcome(lambda: len(obj)), ("ok", n))
+            elif op == "get_abs":
+                cmp(f"f[{a}]", outcome(lambda: obj[a]), outcome(lambda: ref[a]))
             elif op == "get":
                 i = a % (2 * n + 4) - (n + 2)
                 cmp(f"f[{i}]", outcome(lambda: obj[i]), outcome(lambda: ref[i]))
